@@ -16,6 +16,7 @@ use tackler_core::report::{BalanceGroupReporter, BalanceReporter, RegisterReport
 use tackler_core::verif;
 
 mod misc;
+mod ops_c18;
 
 type Res<T> = Result<T, Box<dyn std::error::Error + Send + Sync>>;
 
